@@ -20,7 +20,7 @@ end Outcome
 
 /-! ## ASCII85Decode — `Stream::decode_ascii85` -/
 
-def U32_MAX : Nat := 4294967295
+def A85_U32_MAX : Nat := 4294967295
 
 /-- `u8::is_ascii_whitespace`: SPACE, TAB, LF, FF, CR (not VT, not NUL) -/
 def isAsciiWhitespace (b : UInt8) : Bool := b == 32 || b == 9 || b == 10 || b == 12 || b == 13
@@ -35,8 +35,8 @@ def be4 (v : Nat) : Bytes :=
 
 /-- `buffer.checked_mul(85)?.checked_add(d)?` on `u32`; `none` = the `DecompressError` -/
 def a85Step (buf d : Nat) : Option Nat :=
-  if buf * A85_BASE > U32_MAX then none
-  else if buf * A85_BASE + d > U32_MAX then none
+  if buf * A85_BASE > A85_U32_MAX then none
+  else if buf * A85_BASE + d > A85_U32_MAX then none
   else some (buf * A85_BASE + d)
 
 /-- the padding loop `for _ in count..5` -/
@@ -134,8 +134,8 @@ def decodeRowO (t : PngFilter) (bpp : Nat) (prev cur : Bytes) : Outcome Bytes :=
   if (t = .up ∨ t = .avg ∨ t = .paeth) ∧ prev.length < cur.length then .panic "png.rs index"
   else .ok (decodeRow t bpp prev cur)
 
-def USIZE_MAX : Nat := 18446744073709551615
-def ISIZE_MAX : Nat := 9223372036854775807
+def FLT_USIZE_MAX : Nat := 18446744073709551615
+def FLT_ISIZE_MAX : Nat := 9223372036854775807
 
 /-- the `while pos < content.len()` loop of `decode_frame` -/
 def frameLoop (bpp rowLen : Nat) (content prev : Bytes) : Outcome Bytes :=
@@ -155,8 +155,8 @@ decreasing_by simp; omega
 /-- `decode_frame` (usize = 64 bit; `try_reserve` beyond `isize::MAX` is an error;
 allocation failure below that is not modelled) -/
 def decodeFrame (content : Bytes) (bpp ppr : Nat) : Outcome Bytes :=
-  if bpp * ppr > USIZE_MAX then .panic "png.rs multiply overflow"
-  else if bpp * ppr > ISIZE_MAX then .err "capacity overflow"
+  if bpp * ppr > FLT_USIZE_MAX then .err "PNG row length is out of range"          -- `checked_mul` (fix 1aee36f)
+  else if bpp * ppr > FLT_ISIZE_MAX then .err "capacity overflow"
   else frameLoop bpp (bpp * ppr) content (List.replicate (bpp * ppr) 0)
 
 /-! ## `decompress_predictor` -/
@@ -189,7 +189,7 @@ def decompressPredictor (data : Bytes) (params : Option Dict) : Outcome Bytes :=
   | some p =>
     let g := predGeom p
     if g.active then
-      if g.colors * g.bits > USIZE_MAX then .panic "object.rs multiply overflow"
+      if g.colors * g.bits > FLT_USIZE_MAX then .err "predictor parameters are out of range"   -- `checked_mul` (fix 1aee36f)
       else decodeFrame data g.bpp g.columns
     else .ok data
 
@@ -255,26 +255,27 @@ def lenObj (c : Bytes) : Obj := .int c.length
 /-- `Stream::set_content` -/
 def setContent (s : Strm) (c : Bytes) : Strm := { dict := s.dict.set K_LENGTH (lenObj c), content := c }
 
-def removeKeys (d : Dict) : List Bytes → Dict
+def removeKeysSeq (d : Dict) : List Bytes → Dict
   | [] => d
-  | k :: ks => removeKeys (d.remove k) ks
+  | k :: ks => removeKeysSeq (d.remove k) ks
 
 /-- `Stream::set_plain_content` -/
 def setPlainContent (s : Strm) (c : Bytes) : Strm :=
-  { dict := (removeKeys s.dict (SET_PLAIN_KEYS.take 2)).set (SET_PLAIN_KEYS.getD 2 []) (lenObj c), content := c }
+  { dict := (removeKeysSeq s.dict (SET_PLAIN_KEYS.take 2)).set (SET_PLAIN_KEYS.getD 2 []) (lenObj c), content := c }
 
-/-- `Stream::compress`; `deflate` = `ZlibEncoder::new(_, Compression::best())` + `finish` -/
+/-- `Stream::compress`; `deflate` = `ZlibEncoder::new(_, Compression::best())` + `finish`.
+Since fix 7763e3b a (stale) `DecodeParms` entry is removed before `Filter` is set. -/
 def compress (deflate : Bytes → Bytes) (s : Strm) : Strm :=
   if s.dict.has COMPRESS_GUARD_KEY then s
   else
     let c := deflate s.content
     if c.length + COMPRESS_MARGIN < s.content.length then
-      setContent { s with dict := s.dict.set COMPRESS_SET_KEY (.name COMPRESS_SET_NAME) } c
+      setContent { s with dict := (s.dict.remove COMPRESS_REMOVE_KEY).set COMPRESS_SET_KEY (.name COMPRESS_SET_NAME) } c
     else s
 
 /-- `Stream::decompress` -/
 def decompress (ext : Ext) (s : Strm) : Outcome Strm :=
-  (decompressedContent ext s).map (fun data => setContent { s with dict := removeKeys s.dict DECOMPRESS_KEYS } data)
+  (decompressedContent ext s).map (fun data => setContent { s with dict := removeKeysSeq s.dict DECOMPRESS_KEYS } data)
 
 /-- `Document::compress`: every stream object with `allows_compression` -/
 def docCompress (deflate : Bytes → Bytes) (allows : ObjId → Bool) (os : Objects) : Objects :=
